@@ -257,6 +257,12 @@ class PhaseWorld(World):
             sv = StateVector(v, order=op["order"])
             circ, phase = sv.initializing_circuit(return_phase=True)
             unc, uphase = sv.uncomputing_circuit(return_phase=True)
+            # the same long-lived StateVector object asked again (after the other method was used): same answers
+            circ2, phase2 = sv.initializing_circuit(return_phase=True)
+            unc2 = sv.uncomputing_circuit()
+            if C.snap_circuit(circ2) != C.snap_circuit(circ) or abs(phase2 - phase) > 1e-12 or C.snap_circuit(unc2) != C.snap_circuit(unc):
+                ctx.outcome("sv", "violation")
+                return [Violation("C20", "statevector-object-history-dependent", "StateVector", {"op": op})]
         except Exception as ex:
             ctx.outcome("sv", "refused-unexpectedly")
             return [Violation("C20", "unexpected-refusal", "StateVector", {"exception": repr(ex)[:200], "op": op})]
